@@ -73,6 +73,7 @@ def serve_cases(prop, tier, seed):
         g.fam_ifrange(cb, reps=1 if not T else 3)
         g.fam_range_multi(cb, n=300 * k, with_ifr=True)
     elif prop == "C06":
+        g.fam_body(cb, n=1200 * k, extra=1)
         g.fam_range_multi(cb, n=2500 * k, with_ifr=True, scripts=True)
         g.fam_wide(cb, n=1500 * k)
     elif prop == "C07":
@@ -367,10 +368,10 @@ def run_check(prop, tier, seed):
         path = os.path.join(vlib.WORK, "replay", "%s-%d.json" % (prop, shown))
         with open(path, "w") as f:
             json.dump({"property": prop, "engine": engine, "seed": seed, "case": c, "signature": sig,
-                       "failed": [{"line": v[1], "what": v[3]} for v in vs]}, f, indent=1)
+                       "failed": [{"line": v[1], "what": v[3], "build": v[-1]} for v in vs]}, f, indent=1)
         print("VIOLATION property=%s replay=%s" % (prop, path), flush=True)
         print("  case: %s" % sig[:400], flush=True)
-        print("  failed at: %s" % ", ".join("%s (event %d)" % (v[3], v[1]) for v in vs[:4]), flush=True)
+        print("  failed at: %s" % ", ".join("%s (event %d, %s build)" % (v[3], v[1], v[-1]) for v in vs[:4]), flush=True)
 
     # ---- evidence
     samples = []
@@ -426,10 +427,13 @@ def replay(prop, path):
     consts["Enforce"] = vlib.tla_set([prop])
     c = dict(rp["case"])
     r = vlib.validate_cases("replay_%s" % prop, e["engine"], e["trace_module"], [c], consts, nshards=1)
-    tr = vlib.read_ndjson(os.path.join(r["dir"], "s00", "trace.ndjson"))
-    for i, ev in enumerate(tr):
-        mark = "  <-- " + ", ".join(v[3] for v in r["viol"] if v[1] == i + 1) if any(v[1] == i + 1 for v in r["viol"]) else ""
-        print("%3d %s%s" % (i + 1, json.dumps(ev)[:300], mark))
+    for vname, _ in vlib.VARIANTS:
+        print("--- build variant %s" % vname)
+        tr = vlib.read_ndjson(os.path.join(r["dir"], "s00", "trace_%s.ndjson" % vname))
+        vs = [v for v in r["viol"] if v[-1] == vname]
+        for i, ev in enumerate(tr):
+            mark = "  <-- " + ", ".join(v[3] for v in vs if v[1] == i + 1) if any(v[1] == i + 1 for v in vs) else ""
+            print("%3d %s%s" % (i + 1, json.dumps(ev)[:300], mark))
     if r["viol"]:
         print("VIOLATION property=%s replay=%s" % (prop, path))
         return 1
